@@ -7,7 +7,7 @@ from ..cfg import build_cfg
 from ..flow import Slice
 from ..astutil import short, call_name
 from ..report import fkey
-from ..rules import invalidate, edges
+from ..rules import invalidate, edges, guards
 from ..rules.common import *
 
 EXPLANATION = (
@@ -278,8 +278,62 @@ def exports(ctx, rule='A8x'):
                '; '.join(short(d.ast, 70) for d in ds if d.ast is not None) or 'the written object is not the parameter')
 
 
+def dot_draws_every_edge(ctx, rule='A8x'):
+    """export_dot: the rendering is a description of the graph - every edge of the graph is drawn, except one whose
+    pair of end nodes has been drawn already (incompatibilities are stored as two opposite edges and drawn once).  On
+    the CFG: inside the loop over the graph's edges, the next iteration cannot be reached without passing the drawing
+    call, other than over an edge on which `<pair> in <set of pairs recorded by this loop>` holds."""
+    fn = ctx.fn('adsg_core.graph.export:export_dot')
+    cfg = build_cfg(fn)
+    loops = [n for n in cfg.nodes if n.kind == 'for' and isinstance(n.ast.iter, ast.Call) and
+             call_name(n.ast.iter) == 'edges' and isinstance(n.ast.target, ast.Tuple) and len(n.ast.target.elts) >= 2]
+    if not loops:
+        raise AnalysisError('export_dot: loop over the edges of the graph not found')
+    lp = loops[0]
+    ends = [norm(e) for e in lp.ast.target.elts[:2]]
+    inside = {id(x) for st in lp.ast.body for x in ast.walk(st)}
+    draws = [n for n in cfg.nodes if n.ast is not None and id(n.ast) in inside and n.kind == 'stmt' and
+             any(isinstance(c, ast.Call) and call_name(c) == 'add_edge' for c in ast.walk(n.ast))]
+    if not draws:
+        raise AnalysisError('export_dot: no add_edge call inside the edge loop')
+    # sets of pairs the loop records: `S |= {(u, v), ..}`, `S.add((u, v))`, `S.update(..)`
+    recorded = set()
+    for st in lp.ast.body:
+        for x in ast.walk(st):
+            if isinstance(x, ast.AugAssign) and isinstance(x.op, ast.BitOr) and isinstance(x.target, ast.Name) and \
+                    any(isinstance(t, ast.Tuple) and sorted(norm(e) for e in t.elts) == sorted(ends)
+                        for t in ast.walk(x.value)):
+                recorded.add(x.target.id)
+            if isinstance(x, ast.Call) and call_name(x) in ('add', 'update') and isinstance(x.func, ast.Attribute) and \
+                    isinstance(x.func.value, ast.Name) and \
+                    any(isinstance(t, ast.Tuple) and sorted(norm(e) for e in t.elts) == sorted(ends)
+                        for a in x.args for t in ast.walk(a)):
+                recorded.add(x.func.value.id)
+
+    def shown(atom, truth):
+        if not (isinstance(atom, ast.Compare) and len(atom.ops) == 1 and isinstance(atom.left, ast.Tuple) and
+                sorted(norm(e) for e in atom.left.elts) == sorted(ends) and
+                isinstance(atom.comparators[0], ast.Name) and atom.comparators[0].id in recorded):
+            return False
+        return (isinstance(atom.ops[0], ast.In) and truth is True) or (isinstance(atom.ops[0], ast.NotIn) and truth is False)
+    ge = cfg.edges_implying(shown)
+    starts = [m for m, lab in lp.succ if lab == 'T']
+    reach = cfg.reachable(starts, blocked_nodes=draws, blocked_edges=ge, labels_excluded=('exc',))
+    ok = lp.id not in reach
+    detail = f'{len(draws)} drawing call(s), {len(ge)} already-shown guard edge(s) on {sorted(recorded) or "no recorded set"}'
+    if not ok:
+        pth = next((cfg.find_path(st_, lp, blocked_nodes=draws, blocked_edges=ge, labels_excluded=('exc',))
+                    for st_ in starts), None)
+        if pth:
+            detail = 'an edge is skipped on: ' + guards.path_text(pth)
+    ctx.ob(rule, fkey(fn, rule, 'dot-draws-every-edge'), ok, fn.where,
+           'every edge of the graph is drawn in the DOT export, except an edge whose pair of end nodes has already been '
+           'drawn (an incompatibility stored in one direction only is still drawn)', detail)
+
+
 def check(ctx):
     hash_completeness(ctx)
+    dot_draws_every_edge(ctx)
     node_identity(ctx)
     copy_preserves(ctx)
     ordering_keys(ctx)
@@ -303,6 +357,13 @@ def check(ctx):
 from ..selftest import V  # noqa: E402
 
 VARIANTS = [
+    V('dot-export-skips-backward-incompatibility-edges', 'graph/export.py',
+      [("            if (u, v) in shown_incompatibilities:\n                continue\n            shown_incompatibilities |= {(u, v), (v, u)}\n",
+        "            if node_id_map[u] > node_id_map[v]:\n                continue\n")], key='dot-draws-every-edge'),
+    V('dot-export-shown-pairs-by-add', 'graph/export.py',
+      [("            if (u, v) in shown_incompatibilities:\n                continue\n            shown_incompatibilities |= {(u, v), (v, u)}\n",
+        "            if (u, v) not in shown_incompatibilities:\n                shown_incompatibilities.add((u, v))\n                shown_incompatibilities.add((v, u))\n            else:\n                continue\n")],
+      expect='silent', why='same de-duplication with add() and an inverted test'),
     V('node-fingerprint-memoised-on-node', 'graph/adsg.py',
       [("            return hash(node.str_context())", "            if getattr(node, '_ctx_hash', None) is None:\n                node._ctx_hash = hash(node.str_context())\n            return node._ctx_hash")], key='node-fingerprint-from-string-now'),
     V('gml-nodes-merged-by-label', 'graph/export.py',
